@@ -236,43 +236,53 @@ def assemble (name : Nat) (mode : Option Mode) (factors : Option (Int × Int)) (
   | _, _, _, _, _, _, _ => none
 
 namespace M
-/-- `PinModeFromString`: anything unknown is recursive -/
-def mode (q : List (String × QV)) : Mode :=
+/-- `mode` must be "", "recursive" or "direct" (b5b684c); `none` = error -/
+def mode (q : List (String × QV)) : Option Mode :=
   match getq q "mode" with
-  | .valid (.mode m) => m
-  | _ => .recursive
+  | .empty => some .recursive
+  | .valid (.mode m) => some m
+  | _ => none
 
-/-- `replication` overrides both factors (`q.Set`) before they are parsed -/
+/-- replication-min and replication-max are parsed first (every value given must parse), then `replication`
+    is parsed and overrides both -/
 def factors (q : List (String × QV)) : Option (Int × Int) :=
-  let rpl := getq q "replication"
-  let qmin := if rpl == .empty then getq q "replication-min" else rpl
-  let qmax := if rpl == .empty then getq q "replication-max" else rpl
-  match intParam qmin 0, intParam qmax 0 with
-  | some a, some b => some (a, b)
+  match intParam (getq q "replication-min") 0, intParam (getq q "replication-max") 0 with
+  | some a, some b =>
+    (match getq q "replication" with
+     | .empty => some (a, b)
+     | .valid (.int i) => some (i, i)
+     | _ => none)
   | _, _ => none
 
-/-- `StringsToPeers`: undecodable entries are skipped -/
-def ualloc (q : List (String × QV)) : List Nat :=
+/-- every user-allocations entry must decode as a peer ID -/
+def ualloc (q : List (String × QV)) : Option (List Nat) :=
   match getq q "user-allocations" with
-  | .valid (.peers l) => l.filterMap id
-  | _ => []
-
-/-- expire-at, else expire-in (not even looked at when expire-at is given) -/
-def expiry (q : List (String × QV)) : Option Expiry :=
-  match getq q "expire-at" with
-  | .valid (.exp e) => some e
-  | .empty =>
-    (match getq q "expire-in" with
-     | .empty => some .zero
-     | .valid (.nat k) => some (inFuture k)
-     | _ => none)
+  | .empty => some []
+  | .valid (.peers l) => if l.all Option.isSome then some (l.filterMap id) else none
   | _ => none
+
+/-- expire-in is parsed and validated whenever given -/
+def expireIn (q : List (String × QV)) : Option (Option Nat) :=
+  match getq q "expire-in" with
+  | .empty => some none
+  | .valid (.nat k) => some (some k)
+  | _ => none
+
+/-- … and expire-at, when given, wins -/
+def expiry (q : List (String × QV)) : Option Expiry :=
+  match expireIn q with
+  | none => none
+  | some ein =>
+    (match getq q "expire-at" with
+     | .empty => some (match ein with | none => .zero | some k => inFuture k)
+     | .valid (.exp e) => some e
+     | _ => none)
 end M
 
 /-- `PinOptions.FromQuery`; `none` = it returned an error -/
 def fromQuery (q : List (String × QV)) (md : List (Nat × Nat)) : Option Opts :=
-  assemble (nameParam (getq q "name")) (some (M.mode q)) (M.factors q) (natParam (getq q "shard-size") 0)
-    (some (M.ualloc q)) (M.expiry q) (optCidParam (getq q "pin-update")) (natsParam (getq q "origins")) (metaOf md)
+  assemble (nameParam (getq q "name")) (M.mode q) (M.factors q) (natParam (getq q "shard-size") 0)
+    (M.ualloc q) (M.expiry q) (optCidParam (getq q "pin-update")) (natsParam (getq q "origins")) (metaOf md)
 
 /-! ### path variables (`mux.Vars`) -/
 
@@ -297,11 +307,16 @@ def pathOf (pat : List PSeg) (segs : List Seg) : Option String :=
     if ok then some ("/".intercalate (k.txt :: first.txt :: more.map (·.txt))) else none
   | _, _ => none
 
+/-- `url.ParseQuery(r.URL.RawQuery)` fails: some pair has a malformed percent-escape (ec71f0a: the pin, pin-path and
+    add handlers answer 400; the handlers that read `r.URL.Query()` directly still just lose the pair) -/
+def hasGarbled (q : List (String × QV)) : Bool := q.any (fun p => p.2 == .garbled)
+
 /-- `parseCidOrError`: `none` = it answered 400 -/
 def parseCid (r : Req) (pat : List PSeg) : Option Pin :=
   match (varSeg "hash" pat r.segs).bind (·.cid) with
   | none => none
   | some c =>
+    if hasGarbled r.query then none else
     match fromQuery r.query r.md with
     | none => none
     | some o => some (pinWithOpts c o)   -- the depth follows the mode, as for paths
@@ -311,6 +326,7 @@ def parsePinPath (r : Req) (pat : List PSeg) : Option (String × Opts) :=
   match pathOf pat r.segs with
   | none => none
   | some p =>
+    if hasGarbled r.query then none else
     match fromQuery r.query r.md with
     | none => none
     | some o => some (p, o)
@@ -539,13 +555,13 @@ def clientPath (p : List Seg) : Option (List Seg) :=
     else if k.cid.isSome then some (lit "ipfs" :: k :: rest)
     else none
 
-/-- `TrackerStatus.String` of a filter, read back by `TrackerStatusFromString`: a mask that is not one
-    of the named values is written as every named value it intersects — including the composite
-    names `error` (2|4|8) and `queued` (512|1024) -/
+/-- `TrackerStatus.String` of a filter, read back by `TrackerStatusFromString`: a mask that is not one of the
+    named values is written as every named status or group (`error` = 2|4|8, `queued` = 512|1024) that is fully
+    contained in it (d6bd794; before, every name it merely intersected) -/
 def namedMasks : List Nat := [2, 4, 8, 14, 16, 32, 64, 128, 256, 512, 1024, 1536, 2048, 4096]
 def widen (m : Nat) : Nat :=
   if namedMasks.contains m then m
-  else (namedMasks.filter (fun k => k &&& m != 0)).foldl (· ||| ·) 0
+  else (namedMasks.filter (fun k => k &&& m == k)).foldl (· ||| ·) 0
 
 def boolQ (l : Bool) : QV := .valid (.bool l)
 
@@ -727,6 +743,7 @@ def errorAnswer (p : AddParams) (ops : List Op) : AddResp :=
 def addHandle (r : AddReq) : AddResp :=
   if r.creds && r.auth != .right then { status := 401, body := .docs 1, trailer := false, root := none, ops := [] }
   else if r.mp == .none then { status := 400, body := .docs 1, trailer := false, root := none, ops := [] }
+  else if hasGarbled r.query then { status := 400, body := .docs 1, trailer := false, root := none, ops := [] }
   else match addParams r.query r.md with
     | none => { status := 400, body := .docs 1, trailer := false, root := none, ops := [] }
     | some p =>
